@@ -373,7 +373,7 @@ def expanded_facts(fi: FuncInfo, facts) -> Set[Tuple[str, bool]]:
 
 
 def concrete_paths(fi: FuncInfo, init_env: Dict[str, object], event: Callable, subst: Optional[Callable[[ast.AST], ast.AST]] = None, follow_exc: bool = False,
-                   cfg=None, cut: Optional[Callable] = None) -> Set[Tuple[str, Tuple[str, ...]]]:
+                   cfg=None, cut: Optional[Callable] = None, event_env: bool = False, assign_hook: Optional[Callable] = None) -> Set[Tuple[str, Tuple[str, ...]]]:
     """Finite-domain evaluation of a function on its CFG for ONE concrete environment: assignments of foldable expressions
     to simple locals update the environment (named booleans, aliases), branch conditions that fold prune the other edge,
     everything else forks.  ``event(node)`` names an event (or None); returns {(exit kind, event sequence)} over all
@@ -391,11 +391,15 @@ def concrete_paths(fi: FuncInfo, init_env: Dict[str, object], event: Callable, s
         if cut is not None and cut(n, trace):
             raised.add(("cut", trace))
             return None
-        ev = event(n)
+        ev = event(n, dict(env_t)) if event_env else event(n)
         if ev is not None:
             trace = trace + (ev,)
         if n.kind == "stmt" and isinstance(n.ast, ast.Raise):
             raised.add(("raise", trace))
+        if assign_hook is not None:
+            forced = assign_hook(n, dict(env_t))
+            if forced is not None:
+                return (tuple(sorted(_hashable_env(forced).items(), key=lambda kv: kv[0])), trace)
         if n.kind == "stmt" and isinstance(n.ast, (ast.Assign, ast.AnnAssign, ast.AugAssign)):
             env = dict(env_t)
             st = n.ast
@@ -446,3 +450,24 @@ def concrete_paths(fi: FuncInfo, init_env: Dict[str, object], event: Callable, s
 
 def _hashable_env(env):
     return {k: _hashable(v) for k, v in env.items()}
+
+
+def protected(pm, node: ast.AST, exc: str, stop: Optional[ast.AST] = None):
+    """Like q.protected_by, but also recognises ``with contextlib.suppress(E, ...):`` around the node.  Returns the
+    handler / the With node (truthy) or None."""
+    h = q.protected_by(pm, node, exc, stop)
+    if h is not None:
+        return h
+    child = node
+    for a in q.ancestors(pm, node):
+        if a is stop or isinstance(a, q.ScopeNode):
+            break
+        if isinstance(a, (ast.With, ast.AsyncWith)) and any(child is s for s in a.body):
+            for it in a.items:
+                c = it.context_expr
+                if isinstance(c, ast.Call) and (q.dotted(c.func) or "").split(".")[-1] == "suppress":
+                    names = [q.dotted(x) or q.unparse(x) for x in c.args]
+                    if q.exc_is_caught(exc, names):
+                        return a
+        child = a
+    return None
